@@ -130,8 +130,8 @@ fn norm_type(t: &str) -> String {
 
 fn norm_type1(t: &str) -> String {
     if let Some(rest) = t.strip_prefix("forall A: Dim. ") {
-        if !rest.contains(|c| "[<(,:;".contains(c)) && !rest.contains("forall") {
-            let toks: Vec<&str> = rest.split(' ').collect();
+        if !rest.contains(|c| "[<,:;".contains(c)) && !rest.contains("forall") {
+            let toks: Vec<&str> = rest.split(|c| c == ' ' || c == '(' || c == ')').collect();
             if toks.iter().filter(|x| **x == "A").count() == 1 && !rest.contains("A^") && !rest.contains("A²") && !rest.contains("A³") {
                 // `A` as a factor in the numerator or denominator with exponent ±1
                 return "forall A: Dim. A".to_string();
